@@ -375,6 +375,29 @@ theorem authn_sound (e : AuthEnv) (claimed : String) (peer : Peer) (i : AuthIn) 
         cases hv : e.verifyHostname dns host <;> simp [hp, hv]
 
 
+/-- the connection manager's wrapper: a connection carries an authenticated peer only if a DID was claimed and the
+    (TLS) authenticator accepted the certificate for it; otherwise the stream is refused or stays unauthenticated -/
+theorem connection_authenticated_only_via_authenticator (e : AuthEnv) (claimed : String) (peer : Peer) (i : AuthIn)
+    (hp : peer.authenticated = false) (h : (cmAuthenticate .tls e claimed peer i).1.authenticated = true) :
+    claimed ≠ "" ∧ (cmAuthenticate .tls e claimed peer i).1.did = claimed ∧
+    ∃ dns ep host, i.cert = some dns ∧ i.endpoint = some ep ∧ e.parseHost ep = some host ∧ e.verifyHostname dns host = true := by
+  unfold cmAuthenticate at h ⊢
+  by_cases hc : (claimed == "") = true
+  · simp [hc, hp] at h
+  · simp only [hc, Bool.false_eq_true, if_false] at h ⊢
+    by_cases hok : ((authenticateWith .tls e claimed peer i).2 == "ok") = true
+    · simp only [hok, if_true] at h ⊢
+      have hok' : (authenticate e claimed peer i).2 = "ok" := by simpa [authenticateWith] using hok
+      refine ⟨by simpa using hc, ?_, (authn_sound_iff e claimed peer i).mp hok'⟩
+      have := (authn_sound e claimed peer i).2.1 hok'
+      simp only [authenticateWith]
+      rw [this]
+    · simp [hok] at h
+
+/-- every call of the connection manager's `authenticate` is followed by an error return (inbound and outbound) -/
+theorem fact_authenticate_call_sites : Facts.C15.cmAuthenticateCalls = 2 ∧ Facts.C15.cmAuthenticateCallsChecked = 2 ∧
+    Facts.C15.cmAuthenticateErrorReturnsZeroPeer = true ∧ Facts.C15.extractCertificateIndex = "0" := by decide
+
 /-! ### non-vacuity: a node holding a private transaction for [A, B]; B (listed, authenticated) gets the payload,
     C (unlisted) and an unauthenticated B get the empty response; hypotheses of the theorems are met -/
 
